@@ -428,7 +428,13 @@ def commandObs (st : St) (c : Cmd) : St × Verdict :=
     | none => (st, .exact "scripterror:nofile")
     | some s => (st, .pred (fun g => Layout.checkDump s g)
         ("file decodes, by the documented v16 layout, to exactly the model content " ++ "(Layout.checkDump)"))
-  | "footer" => (st, .pred (footerCheck c) "footer: docs, chunk mode, version 16, CRC-32 of all preceding bytes")
+  | "footer" =>
+    -- document count and chunk mode are the model's own when it knows the file (the generator's
+    -- `docs=` / `mode=` only serve for buffers and files the model has no segment for)
+    let c' : Cmd := match st.files.get? (c.arg 0) with
+      | some s => { c with kv := [("docs", toString s.numDocs), ("mode", toString s.chunkMode)] ++ c.kv.filter (fun p => p.1 != "docs" && p.1 != "mode") }
+      | none => c
+    (st, .pred (footerCheck c') "footer: docs, chunk mode, version 16, CRC-32 of all preceding bytes")
   | "open" =>
     match st.files.get? (c.arg 1) with
     | none => (st, .exact "scripterror:nofile")
